@@ -25,6 +25,8 @@ Inductive err :=
 | EInvalidAfter | EInvalidBefore                                   (* DeserializeCursor returned nil *)
 | EApp                                                             (* the application's getter failed *)
 | ETotalUnsupported
+| ESerialize                                                       (* SerializeCursor failed (RelayModelF.v) *)
+| EValidation                                                      (* rejected before the resolver: an argument the field does not define / a required one missing (RelayModelF.v) *)
 | EPanicked.                                                       (* a Go panic (nothing recovers it) *)
 
 Inductive result (A : Type) := Ok (a : A) | Err (e : err).
